@@ -104,6 +104,7 @@ static void child_run(void *ud) {
     ctx_t c;
     ctx_init(&c, L);
     /* history prefix of this world */
+    sim_shared->aux[2] = 0; /* phase: 0 = history prefix, 1 = probe call (for attribution of a crash) */
     for (int i = 0; i < nl && !viol; i++) {
       if (kinds[i] != 'p' || wno[i] != k) continue;
       int rc = prog_exec_line(&c, lines[i]);
@@ -115,7 +116,17 @@ static void child_run(void *ud) {
     ctx_free_all(&c);
     if (L->mmc_cache) { int s = 0; for (int i = 0; i < 16; i++) if (L->mmc_cache[i].size) s++; if (s) cov->probes[Q_CACHE_WARM]++; cov->state_bits[(s * 8 + fill) >> 3] |= (unsigned char)(1u << ((s * 8 + fill) & 7)); }
     if (L->mzdcache && count_size(sizeof(mzd_t) * 64 + 64) > hb0) cov->probes[Q_HEADER_POOL_GREW]++;
+    /* prefix phase balance: a temporary leaked by one of the prefix calls is C11's business whatever the world */
+    L->m4ri_mmc_cleanup();
+    size_t live1 = heap_live_count();
+    uint64_t dig1 = heap_live_digest();
+    if (!viol && (live1 != live0 || dig1 != dig0)) {
+      fprintf(stderr, "ledger error: %zu live library blocks after the history prefix, %zu expected\n", live1, live0);
+      heap_iter_live(dump_live, &viol_site);
+      flag(HX_LEAK, k, -2, "library allocations outlive a call of the history prefix although everything it returned was freed");
+    }
     /* the probe call */
+    sim_shared->aux[2] = 1;
     ctx_init(&c, L);
     uint64_t rec0 = heap_stats.recycled_hits;
     for (int i = 0; i < nl && !viol; i++) {
@@ -152,6 +163,7 @@ static void child_run(void *ud) {
       fprintf(stderr, "ledger error: %zu live library blocks, %zu expected\n", heap_live_count(), live0);
       heap_iter_live(dump_live, &viol_site);
       flag(HX_LEAK, k, -1, "library allocations outlive the call although everything it returned was freed");
+      if (k > 0) sim_shared->aux[7] = 1; /* the same call released everything in world 0: whether it leaks depends on heap content / history -> C10 */
     }
   }
   free(copy);
@@ -347,13 +359,14 @@ static const char *classify(const child_res_t *cr, int ill, const char **prop) {
   if (cr->fate != FATE_EXIT0) {
     /* attribution rule (DESIGN 2.9): dies in world 0 -> C11 (fault free crash); dies only in a later world -> the fate depended on history/heap: C10 */
     static char b[64];
-    if (sim_shared->aux[0] == 0) { *prop = "C11"; snprintf(b, sizeof b, "faultfree_%s", fate_names[cr->fate]); }
+    if (sim_shared->aux[0] == 0 || sim_shared->aux[2] == 0) { *prop = "C11"; snprintf(b, sizeof b, "faultfree_%s", fate_names[cr->fate]); } /* world 0, or a call of the history prefix (never executed in world 0) */
     else snprintf(b, sizeof b, "fate_depends_on_history_or_heap_%s", fate_names[cr->fate]);
     return b;
   }
   if (!sim_shared->completed) return "incomplete";
   int v = (int)sim_shared->aux[3];
   if (v == HX_LEAK || v == HX_HEADER_SLOT_LEAK || v == HX_INVALID_FREE) *prop = "C11";
+  if (v == HX_LEAK && sim_shared->aux[7]) { *prop = "C10"; return "release_of_temporaries_depends_on_history_or_heap"; }
   return hv_names[v];
 }
 
